@@ -129,6 +129,11 @@ C08_NoResurrect(e) ==
      /\ ~(AboutSelf(e) /\ e.boot))
     => (Unchanged(e) /\ Silent(e))
 
+\* a departure stays a departure: accusations (suspect / dead claims, from gossip or push/pull, at any
+\* incarnation) never turn a member that left into a suspected or failed one
+C08_StaysLeft(e) ==
+  (IsNodeOp(e) /\ e.pre.state = "left" /\ e.op \in {"suspect", "dead"}) => (e.post = e.pre /\ ~e.tpost.on /\ Silent(e))
+
 \* the leaver itself: nothing about itself brings it back once the leave flag is set
 C08_LeaverStays(e) ==
   (IsNodeOp(e) /\ e.op = "alive" /\ AboutSelf(e) /\ e.leave) => (Unchanged(e) /\ Silent(e))
@@ -188,7 +193,7 @@ OrderCore(e) ==
     /\ e.post.state = r.st /\ e.post.inc = r.inc /\ e.incPost = r.selfInc /\ e.tpost.on = r.timerOn
 
 StepProps == <<"C01_StaleNoEffect", "C01_Forward", "C02_Refute", "C02_MergeReaches", "C02_SelfAlive", "C07_Serial",
-               "C08_Left", "C08_LeftAt", "C08_NoResurrect", "C08_LeaverStays", "C08_NoHijack", "C08_Reuse",
+               "C08_Left", "C08_LeftAt", "C08_NoResurrect", "C08_StaysLeft", "C08_LeaverStays", "C08_NoHijack", "C08_Reuse",
                "C09_Hearsay", "C18_Records", "C18_Events", "C18_Adopt", "C18_Source">>
 
 StepHolds(name, e) ==
@@ -201,6 +206,7 @@ StepHolds(name, e) ==
     [] name = "C08_Left"          -> C08_Left(e)
     [] name = "C08_LeftAt"        -> C08_LeftAt(e)
     [] name = "C08_NoResurrect"   -> C08_NoResurrect(e)
+    [] name = "C08_StaysLeft"     -> C08_StaysLeft(e)
     [] name = "C08_LeaverStays"   -> C08_LeaverStays(e)
     [] name = "C08_NoHijack"      -> C08_NoHijack(e)
     [] name = "C08_Reuse"         -> C08_Reuse(e)
@@ -224,6 +230,7 @@ StepAnte(name, e) ==
                                      /\ e.post.state = "left"
     [] name = "C08_NoResurrect"   -> IsNodeOp(e) /\ e.op = "alive" /\ e.pre.state = "left" /\ ~AddrDiffers(e)
                                      /\ e.claim.inc <= e.pre.inc
+    [] name = "C08_StaysLeft"     -> IsNodeOp(e) /\ e.pre.state = "left" /\ e.op \in {"suspect", "dead"}
     [] name = "C08_LeaverStays"   -> IsNodeOp(e) /\ e.op = "alive" /\ AboutSelf(e) /\ e.leave
     [] name = "C08_NoHijack"      -> IsNodeOp(e) /\ e.op = "alive" /\ ~IsAbsent(e.pre) /\ AddrDiffers(e) /\ ~LegitReclaim(e)
     [] name = "C08_Reuse"         -> IsNodeOp(e) /\ LegitReclaim(e)
